@@ -4,6 +4,7 @@ with the handling of its parts in `sort_mkqs_cache` is correct, given correct re
 -/
 import TlxVerif.Proofs.C04Glue
 namespace TlxVerif.C04
+variable {af : Bool}
 
 /-- side conditions on the parameters and choosers: thresholds are positive, the big/small
 decision never sends an empty range into a parallel step, the sampler draws `count` indices
@@ -24,10 +25,99 @@ def ModePre : Mode → List Str → Prop
   | .seqss, strs => strs ≠ []
   | _, _ => True
 
-/-- the recursive calls are correct -/
-def RecOk (rec : Rec) : Prop :=
+/-! ### the measure of the recursion
+
+`msize strs d`: the characters (and terminators) of the range that lie behind the common
+prefix of length `d`.  A sub-range of a step either misses a string of the range (the one a
+splitter / the pivot was taken from) or lies 8 characters deeper.  `mu` adds the position of the
+mode in the chain of calls that keep the range (`enqueue` → step, `sort_mkqs_cache` → `MKQSStep`). -/
+
+def Mode.rank : Mode → Nat
+  | .enq => 3
+  | .big => 2
+  | .seqss => 2
+  | .mkqsTop => 2
+  | .mkqs => 1
+  | .inscache => 1
+
+def mu (mode : Mode) (strs : List Str) (d : Nat) : Nat := 3 * msize strs d + mode.rank
+
+theorem msize_nil (d : Nat) : msize [] d = 0 := rfl
+
+theorem msize_cons (s : Str) (l : List Str) (d : Nat) : msize (s :: l) d = (s.length + 1 - d) + msize l d := by
+  simp [msize]
+
+theorem msize_sublist {l' l : List Str} (h : l'.Sublist l) (d : Nat) : msize l' d ≤ msize l d := by
+  induction h with
+  | slnil => exact Nat.le_refl _
+  | cons a _ ih => rw [msize_cons]; omega
+  | cons_cons a _ ih => rw [msize_cons, msize_cons]; omega
+
+/-- a sub-range that misses a string of the range -/
+theorem msize_sublist_lt {l' l : List Str} (h : l'.Sublist l) {u : Str} (hu : u ∈ l) (hn : u ∉ l') (d : Nat) :
+    msize l' d + (u.length + 1 - d) ≤ msize l d := by
+  induction h with
+  | slnil => simp at hu
+  | @cons l1 l2 a hs ih =>
+    rw [msize_cons]
+    rcases List.mem_cons.1 hu with rfl | hu'
+    · have := msize_sublist hs d; omega
+    · have := ih hu' hn; omega
+  | @cons_cons l1 l2 a hs ih =>
+    rw [msize_cons, msize_cons]
+    have hne : u ≠ a := fun e => hn (by rw [e]; simp)
+    have hu' : u ∈ l2 := by
+      rcases List.mem_cons.1 hu with h | h
+      · exact absurd h hne
+      · exact h
+    have := ih hu' (fun h' => hn (List.mem_cons_of_mem _ h'))
+    omega
+
+theorem msize_mono (l : List Str) {d d' : Nat} (h : d ≤ d') : msize l d' ≤ msize l d := by
+  induction l with
+  | nil => exact Nat.le_refl _
+  | cons s l ih => rw [msize_cons, msize_cons]; omega
+
+/-- a non-empty sub-range `k` characters deeper -/
+theorem msize_deeper {l : List Str} {d k : Nat} (h : ∀ s ∈ l, d + k ≤ s.length) (hne : l ≠ []) :
+    msize l (d + k) + k ≤ msize l d := by
+  obtain ⟨s, rest, rfl⟩ := List.exists_cons_of_ne_nil hne
+  rw [msize_cons, msize_cons]
+  have := h s (by simp)
+  have := msize_mono rest (d := d) (d' := d + k) (by omega)
+  omega
+
+theorem RangeOk.len {p : Str} {l : List Str} (h : RangeOk p l) : ∀ s ∈ l, p.length ≤ s.length := by
+  intro s hs
+  obtain ⟨_, a, rfl⟩ := h s hs
+  simp
+
+/-- a part selected by a condition on the attached values is a sub-list -/
+theorem part_sublist {β} (strs : List Str) (vals : List β) (hl : strs.length ≤ vals.length) (q : Str × β → Bool) :
+    (((strs.zip vals).filter q).map (·.1)).Sublist strs := by
+  have := (List.filter_sublist (l := strs.zip vals) (p := q)).map (·.1)
+  rwa [List.map_fst_zip hl] at this
+
+/-- the sub-range misses a string of the range (and is not shallower) -/
+theorem msize_miss {p : Str} {strs bk : List Str} (hr : RangeOk p strs) (hsub : bk.Sublist strs) {u : Str}
+    (hu : u ∈ strs) (hn : u ∉ bk) {d : Nat} (hd : p.length ≤ d) : msize bk d + 1 ≤ msize strs p.length := by
+  have h1 := msize_sublist_lt hsub hu hn p.length
+  have h2 := msize_mono bk hd
+  have := hr.len u hu
+  omega
+
+/-- the recursive calls are correct; with `af = false` (no fuel error allowed) only the calls
+below the measure `m` are -/
+def RecOk (af : Bool) (m : Nat) (rec : Rec) : Prop :=
   ∀ (mode : Mode) (strs : List Str) (p : Str), RangeOk p strs → ModePre mode strs →
-    Safe (rec mode strs p.length) (SortedLcp strs)
+    (af = false → mu mode strs p.length < m) →
+    Safe af (rec mode strs p.length) (SortedLcp strs)
+
+theorem RecOk.mono {rec : Rec} {m m' : Nat} (h : RecOk af m rec) (hle : af = false → m' ≤ m) : RecOk af m' rec :=
+  fun mode strs p hr hpre hlt => h mode strs p hr hpre (fun e => Nat.lt_of_lt_of_le (hlt e) (hle e))
+
+theorem mu_pos (mode : Mode) (strs : List Str) (d : Nat) : 1 ≤ mu mode strs d := by
+  unfold mu; cases mode <;> simp [Mode.rank] <;> omega
 
 /-! ### list facts -/
 
@@ -151,8 +241,8 @@ theorem deeper_range {p : Str} {strs : List Str} {k : Key} (hr : RangeOk p strs)
 /-- **One MKQS step is correct** (given correct recursive calls): three-way split by the key of the
 pivot, recursion / cached insertion sort / finished equal part, LCPs at the two borders from
 `max_lt`, the pivot and `min_gt`. -/
-theorem mkqsBody_safe {env : Env} (henv : EnvOk env) {rec : Rec} (hrec : RecOk rec) {p : Str} {strs : List Str}
-    (hr : RangeOk p strs) (hne : strs ≠ []) : Safe (mkqsBody env rec strs p.length) (SortedLcp strs) := by
+theorem mkqsBody_safe {env : Env} (henv : EnvOk env) {rec : Rec} {p : Str} {strs : List Str}
+    (hrec : RecOk af (mu .mkqs strs p.length) rec) (hr : RangeOk p strs) (hne : strs ≠ []) : Safe af (mkqsBody env rec strs p.length) (SortedLcp strs) := by
   unfold mkqsBody
   have hn : ¬ strs.length = 0 := fun e => hne (List.length_eq_zero_iff.1 e)
   simp only [hn, if_false]
@@ -207,21 +297,36 @@ theorem mkqsBody_safe {env : Env} (henv : EnvOk env) {rec : Rec} (hrec : RecOk r
   have hreq : RangeOk p eq := hr.sub (fun s hs => (meq s hs).1)
   have hrgt : RangeOk p gt := hr.sub (fun s hs => (mgt s hs).1)
   -- the pivot's string is in the equal part
-  have heqne : eq ≠ [] := by
+  have hpiv : ∃ u, u ∈ eq := by
     obtain ⟨j, hj, hjk⟩ := List.getElem_of_mem hpm
     have hjs : j < strs.length := by omega
     have hz : (strs[j], keys[j]) ∈ strs.zip keys := by
       have : (strs.zip keys)[j]? = some (strs[j], keys[j]) := by
         rw [List.getElem?_zip_eq_some]; exact ⟨List.getElem?_eq_getElem hjs, List.getElem?_eq_getElem hj⟩
       exact List.mem_of_getElem? this
-    intro e
-    have : strs[j] ∈ eq := by
-      rw [← heq, List.mem_map]
-      exact ⟨(strs[j], keys[j]), List.mem_filter.2 ⟨hz, by simpa using hjk⟩, rfl⟩
-    rw [e] at this; simp at this
+    refine ⟨strs[j], ?_⟩
+    rw [← heq, List.mem_map]
+    exact ⟨(strs[j], keys[j]), List.mem_filter.2 ⟨hz, by simpa using hjk⟩, rfl⟩
+  obtain ⟨u, hueq⟩ := hpiv
+  have heqne : eq ≠ [] := by intro e; rw [e] at hueq; simp at hueq
+  have hult : u ∉ lt := by
+    intro h
+    obtain ⟨_, k, hk1, hk2⟩ := mlt u h
+    rw [(meq u hueq).2] at hk1; cases hk1
+    rw [BitVec.lt_def] at hk2; omega
+  have hugt : u ∉ gt := by
+    intro h
+    obtain ⟨_, k, hk1, hk2⟩ := mgt u h
+    rw [(meq u hueq).2] at hk1; cases hk1
+    rw [BitVec.lt_def] at hk2; omega
+  have hslt : lt.Sublist strs := by rw [← hlt]; exact part_sublist strs keys (by omega) _
+  have hseq : eq.Sublist strs := by rw [← heq]; exact part_sublist strs keys (by omega) _
+  have hsgt : gt.Sublist strs := by rw [← hgt]; exact part_sublist strs keys (by omega) _
   -- sub-sorts of the `<` and `>` parts
-  have hsub : ∀ part, RangeOk p part → Safe (mkqsSub env rec part p.length) (SortedLcp part) := by
-    intro part hpr
+  have hsub : ∀ part, RangeOk p part → part.Sublist strs → u ∉ part →
+      Safe af (mkqsSub env rec part p.length) (SortedLcp part) := by
+    intro part hpr hps hup
+    have hm := msize_miss hr hps (meq u hueq).1 hup (Nat.le_refl p.length)
     unfold mkqsSub
     by_cases h0 : part.length = 0
     · have : part = [] := List.length_eq_zero_iff.1 h0
@@ -230,11 +335,11 @@ theorem mkqsBody_safe {env : Env} (henv : EnvOk env) {rec : Rec} (hrec : RecOk r
       exact empty_good
     · simp only [h0, if_false]
       split
-      · exact hrec .inscache part p hpr trivial
-      · exact hrec .mkqs part p hpr (fun e => h0 (by rw [e]; rfl))
-  refine Safe.bind (hsub lt hrlt) (fun rlt hgl => ?_)
+      · exact hrec .inscache part p hpr trivial (fun _ => by simp only [mu, Mode.rank]; omega)
+      · exact hrec .mkqs part p hpr (fun e => h0 (by rw [e]; rfl)) (fun _ => by simp only [mu, Mode.rank]; omega)
+  refine Safe.bind (hsub lt hrlt hslt hult) (fun rlt hgl => ?_)
   -- the equal part
-  have hreqS : Safe (mkqsEq env rec eq p.length pivot) (SortedLcp eq) := by
+  have hreqS : Safe af (mkqsEq env rec eq p.length pivot) (SortedLcp eq) := by
     unfold mkqsEq
     by_cases hlow : lowByte pivot = 0
     · simp only [hlow, if_true]
@@ -255,9 +360,12 @@ theorem mkqsBody_safe {env : Env} (henv : EnvOk env) {rec : Rec} (hrec : RecOk r
       rw [← hp'l]
       split
       · exact Safe.pure (insSort_good hp'r)
-      · exact hrec .mkqs eq p' hp'r heqne
+      · refine hrec .mkqs eq p' hp'r heqne (fun _ => ?_)
+        have h1 := msize_deeper (l := eq) (d := p.length) (k := 8) (fun s hs => by rw [← hp'l]; exact hp'r.len s hs) heqne
+        have h2 := msize_sublist hseq p.length
+        simp only [mu, Mode.rank, hp'l]; omega
   refine Safe.bind hreqS (fun req hge => ?_)
-  refine Safe.bind (hsub gt hrgt) (fun rgt hgg => ?_)
+  refine Safe.bind (hsub gt hrgt hsgt hugt) (fun rgt hgg => ?_)
   apply Safe.pure
   -- assembling
   have hl1 : rlt.lcp.length = lt.length := by rw [hgl.2.2.1, hgl.1.length_eq]
